@@ -182,3 +182,45 @@ Theorem spec_is_stdlib_examples :
   sl_ymd2ord 2023 2 29 = Raise E_Exception.
 Proof. exact sl_examples. Qed.
 Print Assumptions spec_is_stdlib_examples.
+
+(* ---- THE MODEL IS THE COMPILED CODE.  Gen/RustHelpersGen.v is translated from /repo's rust/src/helpers.rs on every run by the Rust-subset translator
+   tools/vlib/rust2gallina.py (tokenizer + recursive-descent parser; fails closed outside its subset) with Rust's semantics made explicit: the crate is
+   built with overflow-checks = false, so every + - * and unary - is wrapped into its operand type (Model/RustInt.v), / and % truncate (Z.quot / Z.rem),
+   `as` casts wrap unless every value of the source type fits, table indexing is tidx on the translated constants, the four `while` loops of local_time are
+   fuel-based Fixpoints (fuels 4, 25, 4, 13 as in the hand model).  The hand model Model/RustHelpers.v, about which every Rust-side theorem above (and C06,
+   C07, C12, C16 ...) speaks, EQUALS that translation: is_leap and days_in_year for EVERY integer, the others on explicit input ranges inside which no
+   operation wraps (far larger than what the extension is called with: years 1..9999, months 1..12, days 1..31, |unix_time| < 2.6e11). *)
+From PV Require Import Model.RustInt Gen.RustHelpersGen Proofs.RustHelpersGenFacts.
+
+Theorem model_is_code_rs_is_leap : forall y, gen_rs_is_leap y = rs_is_leap y.
+Proof. exact gen_rs_is_leap_eq. Qed.
+Print Assumptions model_is_code_rs_is_leap.
+
+Theorem model_is_code_rs_days_in_year : forall y, gen_rs_days_in_year y = rs_days_in_year y.
+Proof. exact gen_rs_days_in_year_eq. Qed.
+Print Assumptions model_is_code_rs_days_in_year.
+
+Theorem model_is_code_rs_is_long_year : forall y, -1000000000 < y <= 1000000000 -> gen_rs_is_long_year y = rs_is_long_year y.
+Proof. exact gen_rs_is_long_year_eq. Qed.
+Print Assumptions model_is_code_rs_is_long_year.
+
+Theorem model_is_code_rs_week_day : forall y m d, -100000000 <= y <= 100000000 -> 1 <= m <= 12 -> 0 <= d <= 100000000 ->
+  gen_rs_week_day y m d = rs_week_day y m d.
+Proof. exact gen_rs_week_day_eq. Qed.
+Print Assumptions model_is_code_rs_week_day.
+
+Theorem model_is_code_rs_day_number : forall y m d, -1000000 <= y <= 1000000 -> 1 <= m <= 12 -> 0 <= d <= 255 ->
+  gen_rs_day_number y m d = rs_day_number y m d.
+Proof. exact gen_rs_day_number_eq. Qed.
+Print Assumptions model_is_code_rs_day_number.
+
+(* local_time(unix_time, utc_offset, microsecond): unix_time is the f64 argument after `.floor() as i64`; from about year 1336 to year 31 million *)
+Theorem model_is_code_rs_local_time : forall t off us, -20000000000 <= t <= 1000000000000000 -> -1000000 <= off <= 1000000 ->
+  gen_rs_local_time t off us = rs_local_time t off us.
+Proof. exact gen_rs_local_time_eq. Qed.
+Print Assumptions model_is_code_rs_local_time.
+
+(* outside those ranges the compiled code WRAPS where the hand model computes in Z: e.g. p(2^31 - 1) *)
+Theorem rs_wraps_outside_the_range : gen_rs_p 2147483647 <> rs_p 2147483647.
+Proof. vm_compute. discriminate. Qed.
+Print Assumptions rs_wraps_outside_the_range.
